@@ -67,7 +67,8 @@ def deep_cases(rnd, start):
 def make_case(i, rnd, formulas, lexical_mode):
     natoms = 4
     world = c01.gen_world(rnd, natoms, rnd.choice([6, 10, 16]))
-    fs = [{"fid": "v%d_%d" % (i, j), "ast": f} for j, f in enumerate(formulas)]
+    # one validation name carries double quotes (a name is data; the report must show it as it is)
+    fs = [{"fid": ("v%d_%d" if j else 'v%d "quoted" %d') % (i, j), "ast": f} for j, f in enumerate(formulas)]
     level = {f["fid"]: rnd.choice(["violation", "violation", "warning", "info"]) for f in fs}
     case = {"id": "c12-%04d" % i, "world": world, "kinds": rnd.sample(range(c01.NKINDS), natoms), "formulas": fs,
             "spell": rnd.randrange(4), "level": level, "lexical": {}, "hasSource": False, "root": "", "additional": {},
